@@ -51,10 +51,10 @@ func init() {
 		"internal/abi.NoEscape":          func(fr *frame, args []value) value { return args[0] },
 		"internal/abi.Escape":            func(fr *frame, args []value) value { return args[0] },
 		"strings.noescape":               func(fr *frame, args []value) value { return args[0] },
-		"internal/godebug.(*Setting).Value":        func(fr *frame, args []value) value { return "" },
-		"internal/godebug.(*Setting).IncNonDefault": func(fr *frame, args []value) value { return nil },
+		"(*internal/godebug.Setting).Value":        func(fr *frame, args []value) value { return "" },
+		"(*internal/godebug.Setting).IncNonDefault": func(fr *frame, args []value) value { return nil },
 		"internal/godebug.New": func(fr *frame, args []value) value { return (*value)(nil) },
-		"internal/godebug.(*Setting).Name": func(fr *frame, args []value) value { return "" },
+		"(*internal/godebug.Setting).Name": func(fr *frame, args []value) value { return "" },
 		"internal/godebug.registerMetric":  func(fr *frame, args []value) value { return nil },
 		"internal/godebug.setUpdate":       func(fr *frame, args []value) value { return nil },
 		"internal/godebug.setNewIncNonDefault": func(fr *frame, args []value) value { return nil },
